@@ -245,6 +245,9 @@ def _layer_specs():
       ('Lattice-nostep-clip', lambda: L.Lattice(lattice_sizes=[2, 2], monotonicities=[1, 0], monotonic_at_every_step=False, clip_inputs=True,
                                                 kernel_initializer='zeros'), [2], False),
       ('KFL-clip', lambda: L.KroneckerFactoredLattice(lattice_sizes=2, units=2, num_terms=1, monotonicities=[0, 1], clip_inputs=True), [2, 2], False),
+      ('PWLCalibration-learned-ndarray', lambda: L.PWLCalibration(input_keypoints=np.linspace(1.0, 4.0, 4), units=2, input_keypoints_type='learned_interior',
+                                                                  monotonicity=1), [2], False),
+      ('PWLCalibration-ndarray', lambda: L.PWLCalibration(input_keypoints=np.array([-2.0, 0.0, 0.5, 3.0]), output_min=0.0, output_max=1.0), [1], False),
       ('PWLCalibration-split', lambda: L.PWLCalibration(input_keypoints=[0.0, 2.0], units=2, split_outputs=True, clamp_max=True, output_max=1.0,
                                                         monotonicity=1, impute_missing=False), [2], False),
       ('CDF', lambda: L.CDF(num_keypoints=2, units=2, activation='sigmoid', reduction='none', input_scaling_init=2.0, input_scaling_type='learned_shared',
@@ -274,10 +277,21 @@ def _json_default(o):
 def _functional_layer(case, label, thunk, shp, is_int, mode, co):
   import tensorflow as tf
   from tensorflow_lattice.python.lattice_layer import keras
-  tag = label if mode == 'config' else '%s,via-json' % label
+  tag = label if mode == 'config' else '%s,via-%s' % (label, mode)
   a = thunk()
   try:
     with keras.utils.custom_object_scope(co):
+      if mode == 'built':
+        # the config of a layer that has already been built (saving in the middle of training): building must not change it
+        cfg0 = _cfg_norm(a.get_config())
+        a.build(tf.TensorShape([None] + shp))
+        if _cfg_diff(cfg0, _cfg_norm(a.get_config())):
+          case.record('building-a-layer-leaves-its-config-unchanged[%s]' % label, 'sat', kind='structural', witness={},
+                      replay=dict(fn='layer-built-config', label=label), sig=dict(query='built-config', label=label),
+                      note=_cfg_diff(cfg0, _cfg_norm(a.get_config())))
+        else:
+          case.record('building-a-layer-leaves-its-config-unchanged[%s]' % label, 'unsat', kind='structural', witness={}, replay=None,
+                      sig=dict(query='built-config', label=label))
       cfg = a.get_config()
       if mode == 'json':
         # what a saved model file holds: the config after a round trip through JSON (tuples become lists)
@@ -288,7 +302,8 @@ def _functional_layer(case, label, thunk, shp, is_int, mode, co):
                 sig=dict(query='rebuild', label=label), note='%s: %s' % (type(e).__name__, str(e)[:120]))
     return
   case.functions.append(core.fn_id(type(a).get_config))
-  a.build(tf.TensorShape([None] + shp))
+  if not a.built:
+    a.build(tf.TensorShape([None] + shp))
   b.build(tf.TensorShape([None] + shp))
   if not _match_vars(case, tag, a, b):
     return
@@ -334,7 +349,7 @@ def case_functional_layers(**p):
   case = Case(PROP, p['name'], {})
   co = tfl.premade.get_custom_objects()
   for label, thunk, shp, is_int in _layer_specs():
-    for mode in ('config', 'json'):
+    for mode in ('config', 'json', 'built'):
       try:
         _functional_layer(case, label, thunk, shp, is_int, mode, co)
       except Exception as e:  # pylint: disable=broad-except
@@ -591,6 +606,13 @@ def replay(r):
     va = [(x.name.split('/')[-1], tuple(x.shape)) for x in a.weights]
     vb = [(x.name.split('/')[-1], tuple(x.shape)) for x in b.weights]
     return dict(reproduced=va != vb, detail=dict(original=va, rebuilt=vb))
+  if rp['fn'] == 'layer-built-config':
+    thunk, shp, is_int = specs_[rp['label']]
+    a = thunk()
+    c0 = _cfg_norm(a.get_config())
+    a.build(tf.TensorShape([None] + shp))
+    d = _cfg_diff(c0, _cfg_norm(a.get_config()))
+    return dict(reproduced=d is not None, detail=dict(first_difference=d))
   if rp['fn'] == 'layer':
     thunk, shp, is_int = specs_[rp['label']]
     a = thunk()
